@@ -12,6 +12,7 @@
    seeds) — emitted bytes and user-visible symbol entries must be identical.
 """
 import os
+import random
 import re
 import shutil
 import subprocess
@@ -23,6 +24,7 @@ import compilers
 import gen
 import lib
 import translate_c05
+import c05_fresh
 from rustsrc import ExtractError
 
 LEVEL = "proof"
@@ -539,6 +541,12 @@ def run(chk):
         f = o.split()
         if len(f) >= 2 and f[0] != l.split()[1]:
             chk.fail("oracle", "purity:guard-not-restored", {"line": l}, f"mode after the scope program is {f[0]}, before it was {l.split()[1]}")
+
+    # tie of the counter clause: Core2.compileCore2With k vs the real compiler after ARGNAME_CTR.store(k)
+    # (own generator derived from the seed, so that the stream of the dynamic search below is unchanged)
+    frng = random.Random(f"{getattr(chk, 'seed', 0)}-c05-fresh")
+    c05_fresh.fresh_tie(chk, frng, 12 if quick else 800)
+    c05_fresh.fresh_looking_probe(chk, frng)
 
     # 3. dynamic search / oracle; widened when an obligation is broken
     broken = bool(chk.failures)
